@@ -46,7 +46,7 @@ ASSUMPTIONS = {"C13": [
 EXPECTED_PROBES = {"C13": ["probe:expr_cache_hit", "probe:path_cache_hit", "fault:evict_expr_cache", "fault:evict_path_cache",
                            "fault:lru_shrunk", "fault:lru_cleared", "probe:expr_reused_on_new_arrays", "probe:negative_int_labels",
                            "probe:list_inputs_unhashable", "fault:pathfinder_failed_once", "api:einsum", "api:ncon", "api:expr_constants", "probe:constants_mutated_in_place",
-                           "api:array_contract_path", "api:einsum_expression"]}
+                           "api:array_contract_path", "api:einsum_expression", "probe:explicit_size_dict", "probe:opt_einsum_namespace"]}
 
 
 def violation_class(v):
@@ -214,8 +214,18 @@ def _gen_pool(rng, sw):
     k = rng.randrange(len(s["sizes"]))
     s["sizes"][k][1] = s["sizes"][k][1] + 1
     add(s, "size-changed")
+    # the same structure with the sizes permuted among the indices
+    if len({d for _, d in base["sizes"]}) >= 2:
+        s = copy.deepcopy(base)
+        vals = [d for _, d in s["sizes"]]
+        for _ in range(6):
+            rng.shuffle(vals)
+            if vals != [d for _, d in base["sizes"]]:
+                break
+        s["sizes"] = [[k, v] for (k, _), v in zip(s["sizes"], vals)]
+        add(s, "sizes-permuted")
     # optimize variants
-    for opt in rng.sample(["optimal", "auto", "sim-flaky"], 2):
+    for opt in rng.sample(["optimal", "auto", "sim-flaky", "opt_einsum:greedy", "opt_einsum:optimal", "opt_einsum:auto"], 3):
         s = copy.deepcopy(base)
         s["optimize"] = opt
         add(s, "optimize-" + opt)
@@ -277,6 +287,10 @@ def _gen_pool(rng, sw):
     s["canonicalize"] = False
     s["as_list"] = True
     add(s, "list-inputs")
+    # how the caller supplies the sizes: via shapes, or an explicit size_dict built in some insertion order
+    mode = sw.choice(["shapes", "shapes", "dict-sorted-by-size", "dict-reversed"])
+    for sp in pool:
+        sp["sizes_as"] = mode
     return pool
 
 
@@ -386,12 +400,20 @@ def _call(ctg, api, spec, aseed, cache, held_expr=None):
         out = ctg.ncon(arrays, [list(t) for t in spec["inputs"]], optimize=opt, cache_expression=cache,
                        canonicalize=spec["canonicalize"], **kw2)
         return ("value", _val(out, kw))
+    szkw = {"shapes": shapes}
+    if spec.get("sizes_as", "shapes") != "shapes":
+        items = list(sizes.items())
+        if spec["sizes_as"] == "dict-sorted-by-size":
+            items.sort(key=lambda kv: (kv[1], str(kv[0])))
+        else:
+            items.reverse()
+        szkw = {"size_dict": dict(items)}
     if api in ("array_contract_expression", "expr_reuse"):
         if api == "expr_reuse" and held_expr is not None:
             expr = held_expr
         else:
-            expr = ctg.array_contract_expression(inputs, output, shapes=shapes, optimize=opt, cache=cache,
-                                                 canonicalize=spec["canonicalize"], **kw)
+            expr = ctg.array_contract_expression(inputs, output, optimize=opt, cache=cache,
+                                                 canonicalize=spec["canonicalize"], **szkw, **kw)
         return ("expr", expr, _val(expr(*arrays), kw))
     if api == "expr_constants":
         crng = random.Random(aseed)
@@ -418,7 +440,7 @@ def _call(ctg, api, spec, aseed, cache, held_expr=None):
         full = [constants[i] if i in constants else a for i, a in enumerate(arrays)]
         return ("value-arrays", full, _val(expr(*[a for i, a in enumerate(arrays) if i not in k]), kw))
     if api == "array_contract_path":
-        p = ctg.array_contract_path(inputs, output, shapes=shapes, optimize=opt, cache=cache, canonicalize=spec["canonicalize"])
+        p = ctg.array_contract_path(inputs, output, optimize=opt, cache=cache, canonicalize=spec["canonicalize"], **szkw)
         return ("path", tuple(tuple(x) for x in p))
     eq = ",".join("".join(t) for t in spec["inputs"]) + "->" + "".join(spec["output"])
     kw.pop("canonicalize", None)
@@ -564,6 +586,10 @@ def run_case(prop, case):
                 I._PATH_CACHE.clear()
                 I._PATH_CACHE.update(snap_p)
             counters["api:" + api] += 1
+            if spec.get("sizes_as", "shapes") != "shapes" and api in ("array_contract_path", "array_contract_expression"):
+                counters["probe:explicit_size_dict"] += 1
+            if isinstance(spec["optimize"], str) and spec["optimize"].startswith("opt_einsum:"):
+                counters["probe:opt_einsum_namespace"] += 1
             if spec["diff"].startswith("labels-ncon"):
                 counters["probe:negative_int_labels"] += 1
             if spec.get("as_list"):
